@@ -241,6 +241,42 @@ static int in_dom (const char *dom, uint64_t a, uint64_t b) {
   return 1;
 }
 
+
+/* ---------------- native reference for long double instructions (gcc-compiled C as oracle) ---------------- */
+static int ld_ref (const char *op, bits_t a, bits_t b, char *rcls, bits_t *r) {
+  long double x = b2l (a), y = b2l (b);
+  r->lo = 0; r->hi = 0;
+#define LR(v) do { *r = l2b (v); *rcls = 'l'; return 1; } while (0)
+#define IR(v) do { r->lo = (uint64_t) (int64_t) (v); *rcls = 'i'; return 1; } while (0)
+  if (!strcmp (op, "ldadd")) LR (x + y);
+  if (!strcmp (op, "ldsub")) LR (x - y);
+  if (!strcmp (op, "ldmul")) LR (x * y);
+  if (!strcmp (op, "lddiv")) LR (x / y);
+  if (!strcmp (op, "ldneg")) LR (-x);
+  if (!strcmp (op, "ldeq")) IR (x == y);
+  if (!strcmp (op, "ldne")) IR (x != y);
+  if (!strcmp (op, "ldlt")) IR (x < y);
+  if (!strcmp (op, "ldle")) IR (x <= y);
+  if (!strcmp (op, "ldgt")) IR (x > y);
+  if (!strcmp (op, "ldge")) IR (x >= y);
+  if (!strcmp (op, "i2ld")) LR ((long double) (int64_t) a.lo);
+  if (!strcmp (op, "ui2ld")) LR ((long double) (uint64_t) a.lo);
+  if (!strcmp (op, "ld2i")) IR ((int64_t) x);
+  if (!strcmp (op, "ld2d")) { r->lo = d2b ((double) x); *rcls = 'd'; return 1; }
+  if (!strcmp (op, "ld2f")) { r->lo = f2b ((float) x); *rcls = 'f'; return 1; }
+  if (!strcmp (op, "d2ld")) LR ((long double) b2d (a.lo));
+  if (!strcmp (op, "f2ld")) LR ((long double) b2f (a.lo));
+  return 0;
+}
+
+static bits_t parse_bits (char *s) {
+  bits_t b = {0, 0};
+  size_t len = strlen (s);
+  if (len > 16) { b.lo = strtoull (s + len - 16, NULL, 16); s[len - 16] = 0; b.hi = (uint16_t) strtoul (s, NULL, 16); }
+  else b.lo = strtoull (s, NULL, 16);
+  return b;
+}
+
 static int quiet;
 
 static void eval_and_print (const char *fname, MIR_item_t *fis, const char *sig, bits_t *args) {
@@ -398,6 +434,12 @@ int main (int argc, char **argv) {
         else args[i - 3].lo = strtoull (s, NULL, 16);
       }
       eval_and_print (tok[1], fis, tok[2], args);
+    } else if (!strcmp (tok[0], "ref") && nt >= 3) { /* ref <op> <a> [<b>] : native reference value */
+      bits_t a = parse_bits (tok[2]), b = {0, 0}, r;
+      char rc = 'i';
+      if (nt > 3) b = parse_bits (tok[3]);
+      if (ld_ref (tok[1], a, b, &rc, &r)) { printf ("N %s ", tok[1]); print_bits (rc, r); printf ("\n"); }
+      else printf ("E bad-ref %s\n", tok[1]);
     } else if (!strcmp (tok[0], "prog") && nt >= 8) {
       uint64_t iv[4], dv[2];
       for (int i = 0; i < 4; i++) iv[i] = strtoull (tok[2 + i], NULL, 16);
